@@ -26,11 +26,22 @@ impl Builder {
         let format = self.format.or_else(|| Format::detect(&raw));
 
         let reader = &mut &raw[..];
-        match format {
+        let scs = match format {
             Some(Format::Text) => text::read_scs(reader),
             Some(Format::Npy) => Array::read_npy(reader).map(Scs::from),
             None => Err(io::Error::new(io::ErrorKind::InvalidData, "invalid format")),
+        }?;
+
+        // An axis for n chromosomes has n + 1 >= 1 entries; a declared length of zero gives an
+        // empty spectrum that no operation is defined on
+        if scs.shape().iter().any(|&n| n == 0) {
+            return Err(io::Error::new(
+                io::ErrorKind::InvalidData,
+                "spectrum shape contains an axis of length zero",
+            ));
         }
+
+        Ok(scs)
     }
 
     /// Set input source.
